@@ -154,6 +154,9 @@ type Enc struct {
 	pureCalls  bool
 	noSpecInline bool
 	verCtr     int
+	writesOld  bool
+	tokIDs     map[string]int
+	readMemo   map[*ssa.Function][]string
 	privateRefs map[string]bool
 	invDone    map[string]bool
 	mkIfaces   []mkIfaceRec
@@ -163,7 +166,7 @@ type Enc struct {
 func newEnc(w *World, f *ssa.Function, spec *Specs) *Enc {
 	e := &Enc{w: w, top: f, d: newDecls(), heaps: map[string]heapSig{}, heapRef: map[string]bool{}, oldTerms: map[string]bool{},
 		allocTerms: map[string]bool{}, selMemo: map[interface{}]string{}, strConsts: map[string]string{}, globals: map[string]bool{},
-		nameCount: map[string]int{}, spec: spec, flagInfo: map[int]string{}, frameOn: true, ghost: map[string]string{}, usedTrusted: map[string]bool{}, privateRefs: map[string]bool{}, invDone: map[string]bool{}}
+		nameCount: map[string]int{}, spec: spec, flagInfo: map[int]string{}, frameOn: true, ghost: map[string]string{}, usedTrusted: map[string]bool{}, privateRefs: map[string]bool{}, invDone: map[string]bool{}, tokIDs: map[string]int{}, readMemo: map[*ssa.Function][]string{}}
 	e.a0 = "A0"
 	e.d.decl("A0", "() Int")
 	e.assume("(>= A0 1)")
